@@ -199,12 +199,25 @@ INV = ("conj(keys_of(self.policy_map) == keys_of(self.policy_cache), "
        "keys_of(self.policy_store) - {'default', 'public'} == keys_of(self.policy_map))")
 DICTS = ["self.policy_store", "self.policy_map", "self.policy_cache", "self.file_timestamps"]
 
+def _listing_looks_at_names_only(ev, outcome, exc):
+    """Which files are policy files is decided by their names alone: a file that is listed stays
+    listed whatever it contains (an emptied or broken file must be *refused*, not treated as removed -
+    that would delete the policies it defined).  So the listing touches the file system only through
+    os.listdir."""
+    for e in ev:
+        if e[0] == 'external' and not e[1].endswith(('listdir', 'join')):
+            return "the directory listing consults %s: whether a file is listed depends on more than its name" % e[1]
+    return True
+
+
 c = contract("kmip.services.server.monitor.get_json_files").props('C18')
-c.args(p='opaque')
+c.args(p='str')
+c.externals(posix__listdir=(('slist', 'str'), False), posixpath__join=('str', False))
+c.allow_external()
 c.returns(('slist', 'str'))
 c.raises(None)
-c.trust("directory listing: returns the paths of the *.json files of the policy directory (file system; "
-        "the bounded history check replaces it by an in-memory directory)")
+c.trace("listed-by-name-only", _listing_looks_at_names_only)
+c.notes.append("assumed: os.listdir returns the names in the directory and does not raise (the directory exists)")
 
 def _failed_load_changes_nothing(ev, outcome, exc):
     """An iteration of the file loop in which read_policy_from_file refused the file writes no
